@@ -167,6 +167,44 @@ func (e *Exec) now() TimeV {
 	return TimeV{NS: e.P.BinBV("bvadd", e.clock0, e.clockAdv)}
 }
 
+// floorDiv divides a signed term by a positive constant rounding towards minus infinity (Time.Unix semantics).
+func (e *Exec) floorDiv(a *Term, c uint64) *Term {
+	cs := e.P.BV(64, c)
+	q := e.P.BinBV("bvsdiv", a, cs)
+	r := e.P.BinBV("bvsrem", a, cs)
+	neg := e.P.And(e.P.Cmp("bvslt", a, e.P.BV(64, 0)), e.P.Not(e.P.Cmp("=", r, e.P.BV(64, 0))))
+	return e.P.Ite(neg, e.P.BinBV("bvsub", q, e.P.BV(64, 1)), q)
+}
+
+// timeSub is Time.Sub: the difference saturates at the minimum / maximum Duration.
+func (e *Exec) timeSub(a, b *Term) *Term {
+	d := e.P.BinBV("bvsub", a, b)
+	zero := e.P.BV(64, 0)
+	aNeg := e.P.Cmp("bvslt", a, zero)
+	bNeg := e.P.Cmp("bvslt", b, zero)
+	dNeg := e.P.Cmp("bvslt", d, zero)
+	ovf := e.P.And(e.P.Not(e.P.Eq(aNeg, bNeg)), e.P.Not(e.P.Eq(dNeg, aNeg)))
+	sat := e.P.Ite(aNeg, e.P.BV(64, uint64(1)<<63), e.P.BV(64, (uint64(1)<<63)-1))
+	return e.P.Ite(ovf, sat, d)
+}
+
+// timeAdd is Time.Add within the model's range: instants are int64 nanoseconds since the epoch, so a
+// result outside that range (years 1678..2262) is outside the model; such paths are cut (stated assumption).
+func (e *Exec) timeAdd(a, d *Term) *Term {
+	r := e.P.BinBV("bvadd", a, d)
+	zero := e.P.BV(64, 0)
+	aNeg := e.P.Cmp("bvslt", a, zero)
+	dNeg := e.P.Cmp("bvslt", d, zero)
+	rNeg := e.P.Cmp("bvslt", r, zero)
+	ovf := e.P.And(e.P.Eq(aNeg, dNeg), e.P.Not(e.P.Eq(rNeg, aNeg)))
+	if ovf.IsFalse() {
+		return r
+	}
+	e.assume(e.P.Not(ovf))
+	e.checkFeasible("Time.Add range")
+	return r
+}
+
 func (e *Exec) advance(d *Term) {
 	e.now()
 	pos := e.P.Cmp("bvsgt", d, e.P.BV(64, 0))
@@ -202,11 +240,41 @@ func (e *Exec) intrinsic(fn *ssa.Function, args []Value) (Value, bool) {
 		return nil, true
 	case "time.Since":
 		n := e.now()
-		return IntV{T: e.P.BinBV("bvsub", n.NS, args[0].(TimeV).NS), Signed: true}, true
+		return IntV{T: e.timeSub(n.NS, args[0].(TimeV).NS), Signed: true}, true
 	case "(time.Time).Add":
-		return TimeV{NS: e.P.BinBV("bvadd", args[0].(TimeV).NS, args[1].(IntV).T)}, true
+		return TimeV{NS: e.timeAdd(args[0].(TimeV).NS, args[1].(IntV).T)}, true
 	case "(time.Time).Sub":
-		return IntV{T: e.P.BinBV("bvsub", args[0].(TimeV).NS, args[1].(TimeV).NS), Signed: true}, true
+		return IntV{T: e.timeSub(args[0].(TimeV).NS, args[1].(TimeV).NS), Signed: true}, true
+	case "(time.Time).Unix":
+		return IntV{T: e.floorDiv(args[0].(TimeV).NS, 1_000_000_000), Signed: true}, true
+	case "(time.Time).UnixMilli":
+		return IntV{T: e.floorDiv(args[0].(TimeV).NS, 1_000_000), Signed: true}, true
+	case "(time.Time).UnixMicro":
+		return IntV{T: e.floorDiv(args[0].(TimeV).NS, 1_000), Signed: true}, true
+	case "(time.Duration).Milliseconds":
+		return IntV{T: e.P.BinBV("bvsdiv", args[0].(IntV).T, e.P.BV(64, 1_000_000)), Signed: true}, true
+	case "(time.Duration).Microseconds":
+		return IntV{T: e.P.BinBV("bvsdiv", args[0].(IntV).T, e.P.BV(64, 1_000)), Signed: true}, true
+	case "(time.Duration).Nanoseconds":
+		return args[0], true
+	case "(time.Duration).Seconds", "(time.Duration).Minutes", "(time.Duration).Hours":
+		if d := args[0].(IntV); d.T.IsConst() {
+			div := map[string]float64{"Seconds": 1e9, "Minutes": 60e9, "Hours": 3600e9}[fn.Name()]
+			return FloatV{F: float64(sext(d.T.C, 64)) / div}, true
+		}
+		return OpaqueV{"float"}, true
+	case "(time.Time).Local", "(time.Time).In", "(time.Time).Round", "(time.Time).Truncate":
+		if fn.Name() == "Local" || fn.Name() == "In" {
+			return args[0], true
+		}
+		panic(unsupported{"time." + fn.Name() + " is not modelled"})
+	case "(time.Time).UnixNano":
+		return IntV{T: args[0].(TimeV).NS, Signed: true}, true
+	case "time.Unix":
+		if s, ok := args[0].(IntV); ok && s.T.IsConst() && s.T.C == 0 {
+			return TimeV{NS: args[1].(IntV).T}, true
+		}
+		panic(unsupported{"time.Unix with non-zero seconds"})
 	case "(time.Time).Before":
 		return BoolV{e.P.Cmp("bvslt", args[0].(TimeV).NS, args[1].(TimeV).NS)}, true
 	case "(time.Time).After":
